@@ -459,3 +459,6 @@ def run(chk):
     chk.guard("R5", lambda: r5_r6(chk))
     from .c05 import import_lookup_contracts
     chk.guard("R7", lambda: import_lookup_contracts(chk, "R7", ["ghost", "lit", "pat", "type_hint", "field_attr_core", "ghosts_attr"]))
+    from .c12 import import_parse_contracts
+    chk.guard("R8", lambda: import_parse_contracts(chk, "R8"))
+
